@@ -8,6 +8,10 @@ CTXF = [("AsmContext::AsmContext", "core/AsmContext.cpp", "harness (2-safety ove
 GROUPS = [
     Group(name="C13/fresh_context", unity="C13/u_ctx.cpp", entry="h_fresh", functions=CTXF, unwind=4, checks=CH, timeout=600),
     Group(name="C13/init_between_passes", unity="C13/u_ctx.cpp", entry="h_init_between_passes", functions=CTXF[1:5], unwind=4, checks=CH, timeout=600),
+    Group(name="C13/flag_protocol_all_cpus", unity="C02/u_protocol.cpp", entry="h_protocol", cpp_sources=["core/cpu_list.cpp"],
+          functions=[("cpu_list[]", "core/cpu_list.cpp", "data; every row checked")], unwind=90, checks=CH, timeout=300),
+    Group(name="C13/new_extension[bounded]", unity="C13/u_newext.cpp", entry="h_new_extension", functions=[("new_extension", "main/naken_asm.cpp", "harness, bounded")],
+          unwind=16, checks=CH, timeout=600, bounded="output file names of at most 8 characters, all characters symbolic"),
 ]
 LEVEL = "proof"
 TRUSTED = []
